@@ -327,6 +327,20 @@ def judge_tables(job):
             check_value(s, "duration", text, r["ok"], None, out, ver, "xs:duration")
             if r["ok"]:
                 typed_roundtrip(s, text, out, ver, "xs:duration", "datetime_types")
+    elif table == "greg":
+        fmt = {"gYear": "{y}{z}", "gYearMonth": "{y}-{m}{z}", "gMonth": "--{m}{z}", "gDay": "---{d}{z}",
+               "gMonthDay": "--{m}-{d}{z}", "dateTime": "{y}-{m}-{d}T{h}:00:00{z}"}
+        schemas = {}
+        for r in rows:
+            typ = r["t"]
+            if typ not in schemas:
+                schemas[typ] = typed_schema(ver, f'<xs:element name="v" type="xs:{typ}"/>', typ)[0]
+            s = schemas[typ]
+            text = fmt[typ].format(**r)
+            n += 1
+            check_value(s, typ, text, r["ok"], None, out, ver, "xs:" + typ)
+            if r["ok"]:
+                typed_roundtrip(s, f" {text} ", out, ver, "xs:" + typ, "datetime_types")
     elif table in ("hex", "base64"):
         typ = "hexBinary" if table == "hex" else "base64Binary"
         chars = {"0": "0", "a": "a", "F": "F", "g": "g", "s": " ", "B": "B", "E": "E", "Q": "Q", "=": "=", "x": "!"}
@@ -371,7 +385,14 @@ def known(direction, label, text, what):
     if label == "xs:date" and direction in ("rejects-valid", "raise") and "-02-29" in text \
             and (text.startswith("-") or text.split("-")[0] not in ("2024", "2000", "0000")):
         return "F-C02-d"
+    # F-C02-e: the end-of-day form 24:00:00 on the last day of year 0000 (XSD 1.1) lands on 1 January of the
+    # SAME year (elementpath's DateTime rolls the day over without carrying into year 0001)
+    if label == "xs:dateTime" and text.strip() in F_C02_E and "0000-01-01T00:00:00" in what:
+        return "F-C02-e"
     return None
+
+
+F_C02_E = {"0000-12-31T24:00:00" + z for z in ("", "Z", "+14:00", "-14:00", "+13:59")}
 
 
 def run(ctx: Ctx):
@@ -383,7 +404,7 @@ def run(ctx: Ctx):
                 constants={"MaxLen": 0, "Kinds": '{"decimal"}'}, tag="tables")
     tables = {x["table"]: x["rows"] for x in t.json_records()}
     if set(tables) != {"bounds", "facets", "lists", "unions", "bools", "dates10", "dates11", "times", "durations",
-                       "hex", "base64", "strfacets", "digits", "whitespace", "patterns", "timezones"}:
+                       "hex", "base64", "strfacets", "digits", "whitespace", "patterns", "timezones", "greg10", "greg11"}:
         raise MachineryError(f"tables missing: {sorted(tables)}")
     total = 0
     bad_all = []
@@ -416,6 +437,9 @@ def run(ctx: Ctx):
         rows = tables[name]
         jobs += [(name, rows[i:i + 700], ver) for ver in ("1.0", "1.1") for i in range(0, len(rows), 700)]
     jobs += [("dates", tables["dates10"], "1.0"), ("dates", tables["dates11"], "1.1")]
+    for name, ver in (("greg10", "1.0"), ("greg11", "1.1")):
+        rows = sorted(tables[name], key=lambda r: (r["t"], r["y"], r["m"], r["d"], r["h"], r["z"]))
+        jobs += [("greg", rows[i:i + 500], ver) for i in range(0, len(rows), 500)]
     for bad, n in ctx.pmap(judge_tables, jobs):
         total += n
         bad_all += bad
